@@ -93,6 +93,40 @@ def _edit_histories(ctx, rng):
                 # (edit_inplace never removes nodes, so this cannot happen; kept as a guard)
 
 
+def planted_7_2_6(rng):
+    """a -> z1 -> b -> d -> z2 -> y <- t with a <-> b <-> y, d <-> a, t <-> d and the query P(a, b, y | do(d, t, z1, z2)):
+    line 7 (district {a, b, y} inside {a, b, y, d, t}), then line 2, then line 6 on a graph in which a and b are no longer
+    ordered by any directed path - their order is a tie that names and hash seeds break.  Names are drawn at random so
+    that the tie falls both ways over a run."""
+    pool = ["V%d" % i for i in range(12)] + ["A", "B", "M", "R", "W", "X1", "X10", "X2"]
+    a, z1, b, d, z2, y, t = rng.sample(pool, 7)
+    gd = {"nodes": rng.sample([a, z1, b, d, z2, y, t], 7),
+          "di": [[a, z1], [z1, b], [b, d], [d, z2], [z2, y], [t, y]],
+          "bi": [[a, b], [b, y], [d, a], [t, d]], "hostile": "planted-7-2-6"}
+    for e in (gd["di"], gd["bi"]):
+        rng.shuffle(e)
+    return gd, {"X": sorted([d, t, z1, z2]), "Y": sorted([a, b, y]), "cls": "planted-7-2-6"}
+
+
+def planted_7_2_7(rng):
+    """a -> x1 -> m -> y, x1 -> y, x2 -> m, a <-> x2, a <-> m, x2 <-> y with P(y | do(x1, x2)): the recursion passes line 7
+    twice in one chain (7 -> 2 -> 7), and the second pass works on a distribution that is no longer the observational
+    one.  A few extra edges and a changed query keep the neighbourhood of the family in play."""
+    pool = ["V%d" % i for i in range(12)] + ["A", "B", "M", "R", "W", "X1", "X10", "X2"]
+    a, x1, m, y, x2 = rng.sample(pool, 5)
+    di = [[a, x1], [x1, m], [m, y], [x1, y], [x2, m]]
+    bi = [[a, x2], [a, m], [x2, y]]
+    if rng.random() < 0.3:
+        bi.append(rng.choice([[x1, x2], [a, y]]))
+    if rng.random() < 0.2:
+        di.append([a, x2])
+    gd = {"nodes": rng.sample([a, x1, m, y, x2], 5), "di": di, "bi": bi, "hostile": "planted-7-2-7"}
+    q = {"X": sorted([x1, x2]), "Y": [y], "cls": "planted-7-2-7"}
+    if rng.random() < 0.25:
+        q = {"X": sorted([x1, x2]), "Y": sorted([y, m]), "cls": "planted-7-2-7"}
+    return gd, q
+
+
 def example_graphs():
     import y0.examples as ex
 
@@ -229,6 +263,14 @@ def run_shard(ctx, K=None):
             q = dict(q, X=sorted(set(q["X"]) | set(extra)))
         run_case(ctx, gd, q, via=rng.choice(("outcomes", "identify")), cards={w: 1 for w in pad})
     ctx.extras["huge_graphs"] = huge
+    # a planted seven-node family whose trace is line 7 -> line 2 -> line 6 with a tie in the inner topological order
+    mon_id.CONFIG["max_nodes_semantic"] = 7
+    for _ in range(ctx.share({"quick": 96, "thorough": 1500}[ctx.tier])):
+        gd_, q_ = planted_7_2_6(rng)
+        run_case(ctx, gd_, q_, via=rng.choice(("outcomes", "identify")))
+        gd_, q_ = planted_7_2_7(rng)
+        run_case(ctx, gd_, q_, via=rng.choice(("outcomes", "identify")))
+    mon_id.CONFIG["max_nodes_semantic"] = 6
     # edit histories: the same graph object is queried, edited in place and queried again
     _edit_histories(ctx, rng)
     exs = example_graphs()
